@@ -184,6 +184,11 @@ def run_c12(chk):
                        "itself, detached roots without parent, at most one document element and doctype (evaluated on the real "
                        "navigation views in the harness); tie: status and tree dump vs the model; non-trivial = a prefix ending "
                        "in a successful call" % (len(cases), 40 if thorough else 12, 20))
+    # a node of ANOTHER document is never accepted into this one - also when the other document was read from the same text and
+    # the two are equal by value: an accepted one answers to two trees at once (round-7 seed C12-I compared documents by value)
+    fm, ncalls = foreign_stream(chk, [t for t, _ in cases[:25]])
+    mfail += fm
+    chk.cov["foreign_document_calls"] = ncalls
     finish(chk, "C12", mfail, tie_failures(cases, ri, rm, findings, chk), problems, pr)
 
 
@@ -219,6 +224,44 @@ def run_c13(chk):
                 mfail.append((t, ops, i, "the call %s: effect or exception differs from DOM Level 1 (model)" % ops[i - 1],
                               "implementation: %s {%s}\nmodel:          %s {%s}" % (st, x["dump"][:500], m[i]["status"], m[i]["dump"][:500])))
                 break
+    fm, ncalls = foreign_stream(chk, [t for t, _ in cases[:40]])
+    mfail += fm
+    # ---- the text-expanded view (what xq / xe read): a run of text, CDATA and references is ONE node made of several items; a call
+    # that has to leave the tree as it is - inserting a node before itself, replacing it by itself - leaves the run as it is, item
+    # for item (round-7 seed C13-J rotated the items)
+    xdocs = ["<r><x/>a<![CDATA[b]]>&#x63;<y/>tail</r>", "<r>&amp;x<![CDATA[<y>]]>z</r>", "<r k='v'>one<!--c-->t&lt;<![CDATA[w]]></r>"]
+    xl, xm = [], []
+    for xd in xdocs:
+        for hh in range(1, 7):
+            for tmpl in (["ib:h1:hH:hH"], ["rc:h1:hH:hH"], ["ib:h1:hH:hH", "rc:h1:hH:hH", "ib:h1:hH:hH"]):
+                ops_ = [o.replace("hH", "h%d" % hh) for o in tmpl]
+                xl.append(lib.req("domx", xd, "string(/r);count(//text())", *ops_))
+                xm.append((xd, ops_))
+    xo = lib.run_lines(lib.build_harness(), xl, timeout=600, per_line_resume=True)
+    for (xd, ops_), o in zip(xm, xo):
+        recs = D.split_records(o)
+        for i_ in range(1, len(recs)):
+            chk.count(["expanded-self", xd] + ops_[:i_], nontrivial=True)
+            if recs[i_]["status"] in ("panic", "abort", "timeout") or recs[i_].get("dump") != recs[0].get("dump"):
+                mfail.append((xd, ["(text-expanded view)"] + ops_, i_, "a node inserted before itself / replaced by itself: the document "
+                              "changed (or the call crashed)", "%s\nbefore: %s\nafter:  %s" % (recs[i_]["status"], recs[0].get("dump", "")[:400],
+                                                                                              recs[i_].get("dump", "")[:400])))
+                break
+    chk.cov["foreign_document_calls"] = ncalls
+    chk.cov["result_classes"] = dict(sorted(classes.items()))
+    chk.cov["rule"] = ("%d histories of up to %d mutator calls with receivers/arguments of every kind and position and name/value strings "
+                       "over an alphabet with the markup-significant characters; per call: no panic/abort, a failing call leaves the "
+                       "dump (document tree + detached trees, with node identities) unchanged, result class and full dump equal the "
+                       "model's (DOM Level 1 effect incl. moves, specified exception class); non-trivial = every call"
+                       % (len(cases), 30 if thorough else 12))
+    finish(chk, "C13", mfail, [], problems, pr)
+
+
+def foreign_stream(chk, more_docs):
+    """nodes of ANOTHER document (the same text read twice: equal ids in both, and the two documents are equal by value): a new
+    child / attribute of the other document is WRONG_DOCUMENT_ERR, a reference, an old child or an old attribute of the other
+    document is NOT_FOUND_ERR (it is not a child of the receiver), and neither document changes"""
+    mfail = []
     # ---- nodes of ANOTHER document (the same text read twice: equal ids in both): a new child / attribute of the other document
     # is WRONG_DOCUMENT_ERR, a reference, an old child or an old attribute of the other document is NOT_FOUND_ERR (it is not a
     # child of the receiver), and neither document changes
@@ -228,7 +271,7 @@ def run_c13(chk):
                "setNamedItem(a2)": "wrongdoc", "removeAttributeNode(attr2)": "notfound", "attr.remove(item2)": "notfound",
                "attr.append(item2)": "wrongdoc"}
     fdocs = ["<r a='1' b='x&amp;y'><k>t</k>u<!--c--></r>", "<r><k/></r>", "<!DOCTYPE r><r id='v'>text</r><!--e-->", "<r/>"]
-    fdocs += [t for t, _ in cases[:40]]
+    fdocs += list(more_docs)
     fout = lib.run_lines(lib.build_harness(), [lib.req("foreign", t) for t in fdocs], timeout=300, per_line_resume=True)
     ncalls = 0
     for t, o in zip(fdocs, fout):
@@ -248,14 +291,31 @@ def run_c13(chk):
                 break
         if tail != "same":
             mfail.append((t, ["foreign"], 1, "a refused call with a node of another document changed a document", tail[:600]))
-    chk.cov["foreign_document_calls"] = ncalls
-    chk.cov["result_classes"] = dict(sorted(classes.items()))
-    chk.cov["rule"] = ("%d histories of up to %d mutator calls with receivers/arguments of every kind and position and name/value strings "
-                       "over an alphabet with the markup-significant characters; per call: no panic/abort, a failing call leaves the "
-                       "dump (document tree + detached trees, with node identities) unchanged, result class and full dump equal the "
-                       "model's (DOM Level 1 effect incl. moves, specified exception class); non-trivial = every call"
-                       % (len(cases), 30 if thorough else 12))
-    finish(chk, "C13", mfail, [], problems, pr)
+    return mfail, ncalls
+
+
+NSQ = ("//*[namespace-uri()='urn:u1'];//*[namespace-uri()='urn:u2'];//*[namespace-uri()='urn:u0'];//*[namespace-uri()=''];"
+       "//@*[namespace-uri()='urn:u1'];//@*[namespace-uri()='urn:u2'];count(//*[namespace-uri()!='']);string(namespace-uri(//*[last()]));"
+       "//*[last()]/namespace::*;name((//*[last()]/namespace::*)[2]);//*[2]/namespace::*[last()];count(//namespace::*)")
+
+
+def ns_node_cases(NSDOCS):
+    """a declaration built as a NODE first (createAttribute, its value set, a query in between, then setAttributeNode): the other
+    way a declaration comes to stand on an element (round-6 seed C14-H / round-7 seed C07-J renumbered for ordinary attribute
+    nodes only)"""
+    import re as _re
+    nscases = []
+    inits = lib.run_lines(lib.build_harness(), [lib.req("dom", t, "count(//*)") for t in NSDOCS], timeout=120, per_line_resume=True)
+    for t, a in zip(NSDOCS, inits):
+        recs = D.split_records(a)
+        nh = 1 + max([int(x) for x in _re.findall(r"h(\d+):", recs[0].get("dump", ""))] or [0])
+        elems = [int(x) for x in _re.findall(r"h(\d+):E\(", recs[0].get("dump", ""))]
+        for el in elems:
+            for nm, uri in (("xmlns:p", "urn:u2"), ("xmlns:q", "urn:u1"), ("xmlns", "urn:u1")):
+                nscases.append((t, ["ca:" + lib.enc(nm), "sv:h%d:%s" % (nh, lib.enc(uri)), "san:h%d:h%d" % (el, nh)]))
+            nscases.append((t, ["ca:" + lib.enc("xmlns:p"), "sv:h%d:%s" % (nh, lib.enc("urn:u2")), "san:h%d:h%d" % (el, nh),
+                                "ce:p%3Anew", "ap:h%d:h%d" % (el, nh + 1)]))
+    return nscases
 
 
 def ns_histories(rng, n, docs):
@@ -305,27 +365,11 @@ def run_c14(chk):
                 break
     # namespace stream: declarations added / removed on ancestors and subtrees moved between scopes, queries that depend
     # on the expanded names of descendants (monitors only: the DOM model knows no namespaces)
-    NSQ = ("//*[namespace-uri()='urn:u1'];//*[namespace-uri()='urn:u2'];//*[namespace-uri()='urn:u0'];//*[namespace-uri()=''];"
-           "//@*[namespace-uri()='urn:u1'];//@*[namespace-uri()='urn:u2'];count(//*[namespace-uri()!='']);string(namespace-uri(//*[last()]));"
-           "//*[last()]/namespace::*;name((//*[last()]/namespace::*)[2]);//*[2]/namespace::*[last()];count(//namespace::*)")
     NSDOCS = ["<r xmlns:p='urn:u1' xmlns='urn:u0'><p:a><p:b p:x='1'><c/></p:b></p:a><d xmlns:p='urn:u2' xmlns=''><e><p:f/></e></d></r>",
               "<r><a xmlns:p='urn:u1'><p:b><p:c p:at='v'/></p:b></a><a xmlns:p='urn:u2'><k/></a></r>",
               "<r xmlns='urn:u0'><mid><leaf><x/></leaf></mid><o xmlns='urn:u1'><i/></o></r>"]
     nscases = ns_histories(rng, 400 if thorough else 120, NSDOCS)
-    # a declaration built as a NODE first (createAttribute, its value set, a query in between, then setAttributeNode / the
-    # string form): the other way a declaration comes to stand on an element (round-6 seed C14-H renumbered for ordinary
-    # attribute nodes only)
-    import re as _re
-    inits = lib.run_lines(lib.build_harness(), [lib.req("dom", t, "count(//*)") for t in NSDOCS], timeout=120, per_line_resume=True)
-    for t, a in zip(NSDOCS, inits):
-        recs = D.split_records(a)
-        nh = 1 + max([int(x) for x in _re.findall(r"h(\d+):", recs[0].get("dump", ""))] or [0])
-        elems = [int(x) for x in _re.findall(r"h(\d+):E\(", recs[0].get("dump", ""))]
-        for el in elems:
-            for nm, uri in (("xmlns:p", "urn:u2"), ("xmlns:q", "urn:u1"), ("xmlns", "urn:u1")):
-                nscases.append((t, ["ca:" + lib.enc(nm), "sv:h%d:%s" % (nh, lib.enc(uri)), "san:h%d:h%d" % (el, nh)]))
-            nscases.append((t, ["ca:" + lib.enc("xmlns:p"), "sv:h%d:%s" % (nh, lib.enc("urn:u2")), "san:h%d:h%d" % (el, nh),
-                                "ce:p%3Anew", "ap:h%d:h%d" % (el, nh + 1)]))
+    nscases += ns_node_cases(NSDOCS)
     nsimpl = lib.run_lines(lib.build_harness(), [lib.req("dom", t, NSQ, *ops) for t, ops in nscases], timeout=900, per_line_resume=True)
     ns_ok = 0
     for (t, ops), a in zip(nscases, nsimpl):
